@@ -16,7 +16,8 @@ THEOREMS = {
                             "accum_is_foldl", "accum_is_foldl_fresh", "collect_fires", "val_stepTxn_collect", "collect_state_is_foldl", "collect_output", "cell_next_value",
                             "accum_eq_loop_hold_snapshot", "accum_eq_loop_hold_snapshot_fresh"]],
     "C05": [S + n for n in ["switchs_fires", "switchs_ignores_selector_update", "switchc_fires_on_switch", "switchc_value", "lift_inv_switchc",
-                            "when_fires", "when_silent", "when_passes", "when_fires_iff"]],
+                            "when_fires", "when_silent", "when_passes", "when_fires_iff",
+                            "switchs_history", "switchs_no_loss_no_dup", "switchs_silent_iff", "switchc_ignores_old", "switchc_silent_when_selected_silent"]],
     "C06": [G + "collect_sound_total", G + "client_never_loses_a_held_object", G + "GcInv.bounded", G + "collect_sound",
             "SodiumVerif.GcScript.script_sound", G + "collectCycles_terminates", G + "collect_frees_only_garbage",
             "SodiumVerif.Struct.run_reachable", "SodiumVerif.Struct.struct_sound", "SodiumVerif.Struct.struct_held_not_freed", "SodiumVerif.Struct.struct_counts_exact"],
@@ -45,13 +46,14 @@ THEOREMS = {
     "C15": [S + n for n in ["addSend_get_other", "sendMany_get", "send_fold", "send_last", "sendAll_get", "send_fold_interleaved", "send_last_interleaved",
                             "sendAll_get_untouched", "sink_fires", "val_stepTxn_csink"]],
     "C17": ["SodiumVerif.LazyM.thunk_at_most_once", "SodiumVerif.LazyM.run_stable", S + "taken_value", S + "stmt_force"],
-    "C18": [S + n for n in ["route_fires", "route_eq_filter_twin", "contains_dup"]],
+    "C18": [S + n for n in ["route_fires", "route_eq_filter_twin", "contains_dup", "reach_resolved", "route_history", "route_silent_without_source",
+                            "route_value_is_source_value", "route_delivers", "route_same_key_twins", "route_keys_both", "route_keys_independent"]],
 }
 MODULES = {
     "C01": ["SodiumVerif.Props.C01", "SodiumVerif.Props.C14", "SodiumVerif.Props.C10"],
     "C02": ["SodiumVerif.Props.C02", "SodiumVerif.Props.C03", "SodiumVerif.Props.Refine", "SodiumVerif.Props.RefineHist"],
     "C04": ["SodiumVerif.Props.C04", "SodiumVerif.Props.C13", "SodiumVerif.Props.Expand"],
-    "C05": ["SodiumVerif.Props.C05", "SodiumVerif.Props.C05b"],
+    "C05": ["SodiumVerif.Props.C05", "SodiumVerif.Props.C05b", "SodiumVerif.Props.C18b"],
     "C06": ["SodiumVerif.Props.C06", "SodiumVerif.Props.StructMem"],
     "C07": ["SodiumVerif.Props.C07", "SodiumVerif.Props.C06", "SodiumVerif.Props.StructMem"],
     "C09": ["SodiumVerif.Props.C09", "SodiumVerif.Props.C09b", "SodiumVerif.Props.C06"],
@@ -62,5 +64,5 @@ MODULES = {
     "C14": ["SodiumVerif.Props.C14"],
     "C15": ["SodiumVerif.Props.C15", "SodiumVerif.Props.C02", "SodiumVerif.Props.C04"],
     "C17": ["SodiumVerif.Props.C17"],
-    "C18": ["SodiumVerif.Props.C18"],
+    "C18": ["SodiumVerif.Props.C18", "SodiumVerif.Props.C18b"],
 }
